@@ -31,6 +31,9 @@ TRUST_MARKERS = ["assume(", "admit(", "external_body", "assume_specification",
                  "no_decreases", "accept_recursive_types", "reject_recursive_types"]
 
 
+STRICT_RULES = {"R7", "R9"}
+
+
 def _mk(s):
     return "/*@%s@*/" % s
 
@@ -49,8 +52,15 @@ def _apply_rewrites(txt, rewrites, ledger, where):
         matches = list(rx.finditer(txt))
         exp = rw.get("expect")
         if exp is not None and len(matches) != exp and not (exp == "+" and matches):
-            raise Undecided("rewrite mismatch: rule %s `%s` matched %d times in %s (expected %s)"
-                            % (rw.get("rule", "?"), rw["re"], len(matches), where, exp))
+            # A rule that inserts a proof obligation or identifies a callback must match exactly (otherwise an
+            # obligation would silently disappear): undecided. Any other rule only adapts a construct Verus cannot
+            # type; when the construct is not there (the code changed shape) the real code goes to Verus as it is,
+            # which either verifies it, refutes it, or rejects it as unsupported (exit 2).
+            if rw.get("rule") in STRICT_RULES or rw.get("strict"):
+                raise Undecided("rewrite mismatch: rule %s `%s` matched %d times in %s (expected %s)"
+                                % (rw.get("rule", "?"), rw["re"], len(matches), where, exp))
+            ledger.add(where=where, rule=rw.get("rule", "?"), before="(pattern matched %d times, expected %s)" % (len(matches), exp),
+                       after="(rule applied to the matches found)", why="code shape differs from the one the rule was written for")
         if not matches:
             continue
         for m in matches:
